@@ -347,6 +347,18 @@ def check_replay(ctx, F):
                     elif ev[0] == "assume" and "applyRequests" in ev[2]:
                         toks.append("ok" if ev[3] else "fail")
                 s = " ".join(toks)
+                if name == "replayEnter":
+                    # the initial activation happens whatever the replayed requests amount to: they may net out to the default configuration
+                    # (two substitution rounds that end where they began), and the replica must still be entered
+                    if "apply" in s:
+                        if re.match(r"^apply (ok |fail )?(rec )?commit clearreq$", s):
+                            ok_path = True
+                        elif "commit" not in toks:
+                            bad.append("a path applies the recorded requests but does not enter the machine (`%s`): a record that nets out to the default "
+                                       "configuration leaves the replica inactive" % s)
+                        else:
+                            bad.append("replay path `%s`, expected `apply rec* commit clearreq`" % s)
+                    continue
                 if "ok" in toks:
                     if re.match(r"^apply ok (rec )?commit clearreq$", s):
                         ok_path = True
